@@ -39,7 +39,7 @@ EXPLANATION = (
     'line forms denoted by the regex constants (group roles from the regex structure, specification samples, pairwise disjoint), '
     'parse/parse_async pass every line then exactly one EOF; R3 per-row effect shapes num_tests+1 once, last_test := last_test+1 '
     'if the number group is None else int(group), highest_test := max(highest_test, new last_test), beyond-plan test is '
-    'plan.num_tests < new last_test, lineno+1 once, and the retention clause (if a test number is used only for last_test, the running maximum, the plan bound and the Test event, duplicates with count == maximum cannot be reported); R4 int() fed by a capture group whose language is an unbounded digit run must '
+    'plan.num_tests < new last_test, lineno+1 once, and the retention clause (if a test number is used only for last_test, the running maximum, the plan bound and the Test event, duplicates with count == maximum cannot be reported); R4 int() fed by a capture group whose language is an unbounded digit run must (and text conversion of a number that can be such an int + 1 must) '
     'be guarded by a ValueError handler (CFG), group indices exist, optional groups / self.plan / Optional parameters are only '
     'dereferenced under a guard atom, constructor arity, no reachable raise; R5 the is_bad set and the verdict fold as decision '
     'tables over event-kind atoms with constant propagation of the verdict local. NOT decided: numeric behaviour of the counters '
@@ -1110,6 +1110,8 @@ def _check_retention(m: Model, tab: tables.Table, sec: Section) -> None:
                     uses['running maximum'] = sec.node
                 elif _truthy(a) is not None and f.role_ref(_truthy(a)[0], 'test', 'digits'):   # type: ignore[index]
                     pass                # is there an explicit number at all
+                elif a.kind == 'cmp' and any(_int_const(x) is not None for x in a.args[1:] if isinstance(x, str)):
+                    uses['compared with a constant bound'] = sec.node
                 else:
                     other.append(f'condition `{a!r}`')
         for chain, val in r.final.items():
@@ -2070,6 +2072,63 @@ def r4(ctx: RuleCtx) -> None:
         ctx.ok(f'{n_grp} capture-group reads name existing groups; {n_deref} dereferences of optional groups / self.plan / Optional parameters are guarded on '
                f'their row; {n_ctor} event constructors get exactly their fields')
     ctx.floor('capture-group reads on rows', n_grp, 5)
+    # (4b) K9, the other direction of the integer/text limit: an int obtained from an unbounded digit run has at most the limit's
+    # digits, but `+ 1` on it can exceed it, and formatting such a value (f-string, str(), %) raises ValueError like int() does
+    def unbounded_src(e: ast.AST) -> bool:
+        for x in ast.walk(e):
+            if isinstance(x, ast.Call) and isinstance(x.func, ast.Name) and x.func.id == 'int' and len(x.args) == 1:
+                g = f.group_ref(x.args[0])
+                if g is not None and f.role(g) == 'digits':
+                    lo, hi = f.forms[g[0]][1].bounds[g[1]]
+                    if hi is None or hi >= INT_MAX_STR_DIGITS:
+                        return True
+        return False
+
+    def chains_of(e: ast.AST) -> T.Set[str]:
+        return {attr_chain(x) or '' for x in ast.walk(e) if isinstance(x, ast.Attribute)} - {''}
+    every_row = [T.cast(Row, r_) for _, tab in all_tabs for r_ in list(tab.rows) + list(getattr(tab, 'handler_rows', []))]
+    finals: T.Dict[str, T.List[ast.AST]] = {}
+    for r in every_row:
+        for c_, v_ in r.final.items():
+            finals.setdefault(c_, []).append(v_)
+    holds = {c_ for c_, vs in finals.items() if any(unbounded_src(v_) for v_ in vs)}           # fields that can hold such an int
+
+    def grows(e: ast.AST, big: T.Set[str]) -> bool:
+        return any(isinstance(x, ast.BinOp) and isinstance(x.op, (ast.Add, ast.Mult, ast.Pow, ast.LShift))
+                   and any(unbounded_src(o) or (chains_of(o) & big) for o in (x.left, x.right)) for x in ast.walk(e))
+    exceed: T.Set[str] = set()
+    for _ in range(4):
+        holds |= {c_ for c_, vs in finals.items() if any(chains_of(v_) & holds for v_ in vs)}
+        exceed |= {c_ for c_, vs in finals.items() if any(grows(v_, holds | exceed) or (chains_of(v_) & exceed) for v_ in vs)}
+    bounded_by_check = [a for _, tab in all_tabs for r_ in tab.rows for a in r_.conds
+                        if a.kind == 'cmp' and any((_int_const(x) or 0) >= 2 for x in a.args[1:] if isinstance(x, str))
+                        and any(unbounded_src(_e(x)) and f'self.{f.forms["test"][0]}.match' in x for x in a.args[1:] if isinstance(x, str) and _int_const(x) is None)]
+    if bounded_by_check:      # an explicit upper bound on the number: a value-range argument this pack does not follow
+        exceed = set()
+        ctx.note(f'the converted number is compared with a constant upper bound (`{bounded_by_check[0]!r}`): the text-conversion clause is not judged')
+    tprob: T.Dict[str, T.Tuple[str, ast.AST]] = {}
+    n_fmt = 0
+    for qn, tab in all_tabs:
+        for r_ in list(tab.rows) + list(getattr(tab, 'handler_rows', [])):
+            for raw, sub, _k in T.cast(Row, r_).exprs:
+                for x in ast.walk(sub):
+                    vals = [v_.value for v_ in x.values if isinstance(v_, ast.FormattedValue)] if isinstance(x, ast.JoinedStr) else \
+                        (list(x.args) if isinstance(x, ast.Call) and isinstance(x.func, ast.Name) and x.func.id in ('str', 'repr') else [])
+                    for v_ in vals:
+                        n_fmt += 1
+                        hit = sorted(chains_of(v_) & exceed) or (['<new number>'] if grows(v_, holds | exceed) else [])
+                        if not hit:
+                            continue
+                        owner = next((fn0 for _, fn0 in covered if any(y is raw for y in ast.walk(fn0))), None)
+                        if owner is not None and _guarded_by_handler(CFG(owner), raw, 'ValueError'):
+                            continue
+                        tprob.setdefault(hit[0], (f'`{short(x, 70)}` turns {hit[0]} into text; that value can be (an int read from an unbounded digit run) + 1, i.e. '
+                                                  f'one digit more than int()/str() accept ({INT_MAX_STR_DIGITS}): e.g. `ok ` + {INT_MAX_STR_DIGITS} nines, then `ok` '
+                                                  f'makes this conversion raise ValueError out of the parser ({tab.name})', raw))
+    for fld, (msg, node) in tprob.items():
+        ctx.violation(mod, f'{PARSER}.parse_line', f'text conversion of {fld}', msg, node)
+    if not tprob:
+        ctx.ok(f'{n_fmt} text conversions on the rows: none formats a number that can exceed the integer/text conversion limit (fields that can: {sorted(exceed)})')
     # (5) no explicit raise is reachable; the drivers contain no partial operation of their own
     for q in ['parse_line', 'parse_test', 'parse', 'parse_async'] + sorted(f.reach() - {'parse_line'}):
         fn = mod.func(f'{PARSER}.{q}')
